@@ -8,6 +8,8 @@ import XzVerif.Proofs.HashTable
 import XzVerif.Proofs.BinTree
 import XzVerif.Proofs.GoSrcEnc
 import XzVerif.Proofs.GoSrcTreeEnc
+import XzVerif.Proofs.GoSrcLen
+import XzVerif.Proofs.GoSrcDist
 /-
   C02 — Everything the xz writer emits is a valid .xz file for other implementations.
 
@@ -232,6 +234,34 @@ theorem C02_source_tree_encoders (fuel : Nat) (g : GoSrc.T_rangeEncoder) (e : Rc
   ⟨fun tc hb tr => GoSrcP.treeCodec_Encode_refines fuel tc g e L v tbl base bits rel rest htbl hb1 hb2 hb tr hcl hL hfuel,
    fun tc hb tr => GoSrcP.treeReverseCodec_Encode_refines fuel tc g e L v tbl base bits rel rest htbl hb1 hb2 hb tr hcl hL hfuel,
    fun dc hdc => GoSrcP.directCodec_Encode_refines fuel dc g e L v tbl rel rest hdc hcl hL hfuel⟩
+
+/-- lzma/lengthcodec.go and lzma/distcodec.go from the source: `lengthCodec.Encode` (choices, 16 + 16 + 1 trees in Go
+    arrays) runs `lenEnc`, `distCodec.Encode` (position slot by `nlz32`, slot trees, reverse trees through a pointer alias,
+    direct bits, align tree) runs `distEnc` of Codec/Lzma.lean over the model's flat table, with the byte limit; the Go
+    arrays stay the model's table blocks; no index panic; a length above 271 is refused before anything is written. -/
+theorem C02_source_length_and_distance_encoders (fuel : Nat) (g : GoSrc.T_rangeEncoder) (e : Rc.Enc) (Lim : Nat) (tbl : Tbl)
+    (rel : GoSrcP.EncRel g e Lim) (rest : e.Rest) (htbl : tbl.ok)
+    (hcl : e.cacheLen + 300 < 2 ^ 62) (hL : Lim < 2 ^ 63) (hfuel : e.cacheLen + 300 ≤ fuel) :
+    (∀ (lc : GoSrc.T_lengthCodec) (l posState : BitVec 32) (L : Nat), GoSrcP.LenRel lc tbl L → l.toNat ≤ 271 →
+      posState.toNat < 16 →
+      match GoSrcP.encPathL Lim tbl e (lenEnc L posState.toNat l.toNat) with
+      | none => ∃ lc' g', GoSrc.lengthCodec_Encode fuel lc g l posState = Go.Res.ok (Go.Err.named "ErrLimit", lc', g')
+      | some (tbl', e') =>
+        ∃ lc' g', GoSrc.lengthCodec_Encode fuel lc g l posState = Go.Res.ok (Go.Err.nil, lc', g')
+          ∧ GoSrcP.EncRel g' e' Lim ∧ e'.Rest ∧ tbl'.ok ∧ e'.cacheLen ≤ e.cacheLen + 10 ∧ GoSrcP.LenRel lc' tbl' L) ∧
+    (∀ (lc : GoSrc.T_lengthCodec) (l posState : BitVec 32), 271 < l.toNat →
+      GoSrc.lengthCodec_Encode fuel lc g l posState
+        = Go.Res.ok (Go.Err.new "lengthCodec.Encode: l out of range", lc, g)) ∧
+    (∀ (dc : GoSrc.T_distCodec) (dist l : BitVec 32), GoSrcP.DistRel dc tbl →
+      match GoSrcP.encPathL Lim tbl e (distEnc dist.toNat l.toNat) with
+      | none => ∃ dc' g', GoSrc.distCodec_Encode fuel dc g dist l = Go.Res.ok (Go.Err.named "ErrLimit", dc', g')
+      | some (tbl', e') =>
+        ∃ dc' g', GoSrc.distCodec_Encode fuel dc g dist l = Go.Res.ok (Go.Err.nil, dc', g')
+          ∧ GoSrcP.EncRel g' e' Lim ∧ e'.Rest ∧ tbl'.ok ∧ e'.cacheLen ≤ e.cacheLen + 40 ∧ GoSrcP.DistRel dc' tbl') :=
+  ⟨fun lc l ps L lr hl hps => GoSrcP.lengthCodec_Encode_refines fuel lc g e Lim l ps tbl L rel rest htbl lr hl hps
+      (by omega) hL (by omega),
+   fun lc l ps hl => GoSrcP.lengthCodec_Encode_refuses fuel lc g l ps hl,
+   fun dc dist l dr => GoSrcP.distCodec_Encode_refines fuel dc g e Lim dist l tbl rel rest htbl dr hcl hL hfuel⟩
 
 /-- the checked path is the codec's path whenever the limit is not hit (`encPath` of Codec/LzmaDec.lean) -/
 theorem C02_source_checked_path (L : Nat) (t : Tbl) (e : Rc.Enc) (π : Path) (t' : Tbl) (e' : Rc.Enc)
